@@ -212,10 +212,12 @@ fn c09_frame_protocol() {
     }
     b.new_frame();
     unsafe {
-        kani::assert(!W_BAD_RANGE, "c09.frame.range_in_buffer");
-        kani::assert(W_HITS == 1, "c09.frame.each_pixel_painted_once");
+        kani::assert(!W_BAD_RANGE && !b.buffer.oob, "c09.frame.range_in_buffer");
+        // painting through fill_to (summarised) and any direct painting are both counted
+        kani::assert(W_HITS + b.buffer.hits == 1, "c09.frame.each_pixel_painted_once");
         if clear {
-            kani::assert(W_COLOR == expect, "c09.frame.colour_of_latest_write_before_beam");
+            let shown = if b.buffer.hits > 0 { b.buffer.color } else { W_COLOR };
+            kani::assert(shown == expect, "c09.frame.colour_of_latest_write_before_beam");
         }
     }
     kani::assert(b.beam_last.line == 0 && b.beam_last.pixel == 0, "c09.frame.inv_beam_reset");
